@@ -543,6 +543,12 @@ func errnoName(e syscall.Errno) string {
 		return "ENOSPC"
 	case syscall.EXDEV:
 		return "EXDEV"
+	case syscall.ENAMETOOLONG:
+		return "ENAMETOOLONG"
+	case syscall.EROFS:
+		return "EROFS"
+	case syscall.EBUSY:
+		return "EBUSY"
 	}
 	return fmt.Sprintf("errno%d", int(e))
 }
@@ -1334,7 +1340,19 @@ func TestCheck(t *testing.T) {
 		rec.Inconclusive(-1, "harness: cannot create scratch directory "+root, err.Error())
 		return
 	}
-	defer os.RemoveAll(root)
+	defer removeTree(root)
+	sweepStaleScratch(root)
+	pinOK, pinWhy := pinAvailable(root)
+	if !pinOK {
+		rec.Observe("the ext immutable attribute cannot be used here (" + pinWhy + "): the error-return faults that pin a directory (previous version not removable, base directory not changeable) are skipped; only the unwritable-file-name faults run")
+	}
+	for _, cl := range errFaultClasses {
+		if pinOK || strings.HasPrefix(cl, "bad-name:") {
+			req = append(req, "errfault.failed."+cl)
+		}
+	}
+	req = append(req, "errfault.observe.hits", "errfault.later-write-fresh-dir-ok", "errfault.later-write-same-dir-ok")
+	rec.Note("require", req)
 	for _, e := range os.Environ() {
 		if strings.HasPrefix(e, "VERIF_OUT=") || strings.HasPrefix(e, "VERIF_JOURNAL=") || strings.HasPrefix(e, "GOMAXPROCS=") {
 			continue
@@ -1345,7 +1363,9 @@ func TestCheck(t *testing.T) {
 
 	seqPlan := buildPlan()
 	reusePl := buildReusePlan()
-	rec.Planned(len(seqPlan) + len(reusePl))
+	errPl := buildErrPlan(len(seqPlan) + len(reusePl))
+	rec.Planned(len(seqPlan) + len(reusePl) + len(errPl))
+	rec.Note("error_return_fault_cases", fmt.Sprintf("case indices %d..%d: no process death; one filesystem step of a Write is made to fail with an error: removal of the previous version after the swap (that directory, or the base directory, gets the ext immutable attribute from the removeprev.before hook), mkdir/symlink/rename in a base directory pinned from that step's hook, or a file name that cannot be written (missing sub-directory, 300 characters, '.'); 0-2 successful Writes before, optionally a second Write while still pinned; then the pin is lifted and the same Dir (in half of the cases) and a fresh Dir write again. Oracle at every hook hit, after the failed Write and after the later Writes: absent only while no Write returned nil, else exactly one complete set of the history; the later Writes return nil and show their sets; lingering version directories counted only", len(seqPlan)+len(reusePl), len(seqPlan)+len(reusePl)+len(errPl)-1))
 	rec.Note("caller_owned_buffer_cases", fmt.Sprintf("case indices %d..%d: crash-free histories of one Dir with ONE caller-owned map whose byte slices are re-used and overwritten in place between Writes (all / one of three / changed and changed back / mutated right after Write returned), whose key set changes in the same map object, and identical consecutive sets in fresh buffers; after every nil return the target must show exactly the set of THAT call and only the current version directory may remain; one evaluation per Write, non-trivial = not the first Write of the history", len(seqPlan), len(seqPlan)+len(reusePl)-1))
 	for idx, p := range seqPlan {
 		if !mon.Mine(idx) {
@@ -1362,5 +1382,15 @@ func TestCheck(t *testing.T) {
 		}
 		rec.Begin(idx, p.desc())
 		runReuse(idx, p, root)
+	}
+	// error-return faults install the verif hook in THIS process: they run one
+	// at a time, after every worker of the crash enumeration has finished
+	for i, p := range errPl {
+		idx := len(seqPlan) + len(reusePl) + i
+		if !mon.Mine(idx) {
+			continue
+		}
+		rec.Begin(idx, p.desc())
+		runErrFault(idx, p, root, pinOK)
 	}
 }
